@@ -594,7 +594,7 @@ func TestPubSubStep(t *testing.T) {
 			add("leave", 2, m.ruleLeave)
 			add("send", 3, m.ruleSend)
 			add("observe", 1, func(*rapid.T) { m.step() }) // always enabled (rapid gives up when every drawn action skips)
-			t.Repeat(acts)
+			t.Repeat(vkit.NoStarve(acts, nil))
 			// ---- teardown: finish the Send in flight, everybody leaves
 			m.tr("teardown")
 			for round := 0; round < 40 && m.sending(); round++ {
